@@ -48,9 +48,18 @@ def main() -> int:
         return setup()
     pid = args.target.upper()
     mod = importlib.import_module(f'harness.{pid.lower()}')
-    if args.replay:
-        return mod.replay(args.replay)
-    return mod.check(args.tier, args.seed)
+    # one check at a time: coq/gen is regenerated from the tree under check (VERIF_REPO or /repo) at the
+    # start of every run, two concurrent runs on different trees would overwrite each other's models
+    import fcntl
+
+    lock = open(os.path.join(common.VERIF, '.check.lock'), 'w')
+    fcntl.flock(lock, fcntl.LOCK_EX)
+    try:
+        if args.replay:
+            return mod.replay(args.replay)
+        return mod.check(args.tier, args.seed)
+    finally:
+        fcntl.flock(lock, fcntl.LOCK_UN)
 
 
 if __name__ == '__main__':
